@@ -41,8 +41,9 @@ LEVEL_TEXT = ('Every structure up to the bound is traversed by every public '
               'daglish / daglish_legacy query and compared path-by-path and '
               'object-by-object with an independent enumerator.')
 LEVEL_NOTE = ('Trusted: canon.children/all_paths (plain recursion over dunder '
-              'storage and builtin containers). Bounds: N<=3 (quick), N<=4 '
-              'reduced menu (thorough).')
+              'storage and builtin containers). Bounds: N<=2 full / N<=3 / N<=4 '
+              'reduced menus (quick); N<=3 full, N<=4 reduced with two leaves '
+              '(thorough).')
 
 CONST_TUPLE = ((1, 2), 3)
 MENUS = {
@@ -57,8 +58,7 @@ NCHUNK = 32
 def bounds(tier):
   if tier == 'quick':
     return {'plans': [['full', 2, 2], ['mid', 3, 1], ['small', 4, 1]]}
-  return {'plans': [['full', 3, 1], ['mid', 3, 2], ['small', 4, 1],
-                    ['small', 5, 1]]}
+  return {'plans': [['full', 3, 1], ['mid', 3, 2], ['small', 4, 2]]}
 
 
 def units(tier, seed):
